@@ -16,7 +16,9 @@ import (
 	"errors"
 	"flag"
 	"fmt"
+	"math"
 	"os"
+	"strconv"
 	"strings"
 	"time"
 
@@ -64,7 +66,28 @@ func (p Pkt) data() []byte {
 type HSpec struct {
 	Generic  bool  `json:"generic"`
 	ID       int32 `json:"id"`
-	Priority int   `json:"priority"`
+	Priority Prio  `json:"priority"`
+}
+
+// Prio is a handler priority; values that a float64 cannot hold exactly are written to replay files
+// as decimal strings (descriptors pass through generic JSON on their way to the file).
+type Prio int
+
+func (p Prio) MarshalJSON() ([]byte, error) {
+	if p > 1<<53 || p < -(1<<53) {
+		return []byte(strconv.Quote(strconv.Itoa(int(p)))), nil
+	}
+	return []byte(strconv.Itoa(int(p))), nil
+}
+
+func (p *Prio) UnmarshalJSON(b []byte) error {
+	s := string(b)
+	if len(s) > 1 && s[0] == '"' {
+		s = s[1 : len(s)-1]
+	}
+	v, err := strconv.Atoi(s)
+	*p = Prio(v)
+	return err
 }
 
 type Config struct {
@@ -79,8 +102,19 @@ type Config struct {
 	Queue      string  `json:"queue"`   // linked | chan (chan only in the free-running pass)
 	ShortReads bool    `json:"short_reads"`
 	Ping       bool    `json:"ping"`
-	Batch      bool    `json:"batch"` // register all handlers with one AddGeneric/AddListener call
-	Ping2      bool    `json:"ping2"` // two overlapping status queries with different client protocol numbers
+	Batch      bool    `json:"batch"`               // register all handlers with one AddGeneric/AddListener call
+	Ping2      bool    `json:"ping2"`               // two overlapping status queries with different client protocol numbers
+	AuthUUID   string  `json:"auth_uuid,omitempty"` // Client.Auth.UUID (the UUID the bot claims in its login hello)
+	Groups     []int   `json:"groups,omitempty"`    // registration calls: consecutive runs of Handlers, each run registered with one AddGeneric and one AddListener call (ids mixed)
+	QueueCap   int     `json:"queue_cap,omitempty"` // capacity of the channel queues (free-running pass), default 64
+	Rounds     []Round `json:"rounds,omitempty"`    // history family: successive sessions on ONE bot.Client and ONE server.Server
+}
+
+// Round is one step of a history: a status ping or a join by the same bot.Client value.
+type Round struct {
+	Kind     string `json:"kind"` // ping | join
+	Name     string `json:"name,omitempty"`
+	AuthUUID string `json:"auth_uuid,omitempty"`
 }
 
 var (
@@ -172,9 +206,16 @@ func (d dialer) DialMCContext(ctx context.Context, addr string) (*mcnet.Conn, er
 	return mcnet.WrapConn(d.c), nil
 }
 
-type checker struct{ admit bool }
+type checker struct {
+	admit bool
+	obs   *Obs
+}
 
 func (c checker) CheckPlayer(name string, id uuid.UUID, protocol int32) (bool, chat.Message) {
+	lock()
+	c.obs.ChkCalls++
+	c.obs.ChkName, c.obs.ChkID, c.obs.ChkProtocol = name, id, protocol
+	unlock()
 	if c.admit {
 		return true, chat.Message{}
 	}
@@ -254,6 +295,12 @@ type Obs struct {
 	Ping2Data    [16][]byte
 	Ping2Err     [16]error
 	Ping2N       int
+	ChkCalls     int // CheckPlayer invocations and the arguments of the last one
+	ChkName      string
+	ChkID        uuid.UUID
+	ChkProtocol  int32
+	Want         *statusWant // status ping: what the status handler answers at the time of the query
+	Rounds       []*Obs      // history family: one observation record per round
 }
 
 type Pkt2 struct {
@@ -303,9 +350,9 @@ func newServer(cfg Config, obs *Obs) *server.Server {
 	var chk server.LoginChecker
 	switch cfg.Checker {
 	case "accept":
-		chk = checker{true}
+		chk = checker{true, obs}
 	case "refuse":
-		chk = checker{false}
+		chk = checker{false, obs}
 	}
 	motd := chat.Text("verif motd")
 	return &server.Server{
@@ -349,6 +396,10 @@ func session(cfg Config, obs *Obs) {
 		session2(cfg, obs)
 		return
 	}
+	if len(cfg.Rounds) > 0 {
+		sessionHistory(cfg, obs)
+		return
+	}
 	a, b := vnet.Pipe()
 	a.ExploreShortReads(cfg.ShortReads)
 	b.ExploreShortReads(cfg.ShortReads)
@@ -362,44 +413,78 @@ func session(cfg Config, obs *Obs) {
 		return
 	}
 	client := bot.NewClient()
-	client.Auth.Name = cfg.Name
-	calls := 0
-	var batchGen, batchSpec []bot.PacketHandler
+	sink := &callSink{obs: obs}
+	registerHandlers(client, cfg, sink)
+	joinAndPlay(client, cfg, a, obs, hS)
+}
+
+// callSink is where handler invocations are recorded; a history points it at the current round.
+type callSink struct {
+	obs   *Obs
+	calls int
+}
+
+// registerHandlers registers cfg.Handlers on the client: one call per handler, or (Batch) one
+// AddGeneric and one AddListener call for all, or (Groups) one such pair of calls per consecutive run.
+func registerHandlers(client *bot.Client, cfg Config, sink *callSink) {
+	var phs []bot.PacketHandler
 	for i, h := range cfg.Handlers {
-		i, h := i, h
-		ph := bot.PacketHandler{ID: packetid.ClientboundPacketID(h.ID), Priority: h.Priority, F: func(p pk.Packet) error {
+		i := i
+		phs = append(phs, bot.PacketHandler{ID: packetid.ClientboundPacketID(h.ID), Priority: int(h.Priority), F: func(p pk.Packet) error {
 			lock()
-			obs.Calls = append(obs.Calls, Call{i, p.ID, len(p.Data), sum(p.Data)})
-			k := calls
-			calls++
+			sink.obs.Calls = append(sink.obs.Calls, Call{i, p.ID, len(p.Data), sum(p.Data)})
+			k := sink.calls
+			sink.calls++
 			unlock()
 			if cfg.FailAt >= 0 && k == cfg.FailAt {
 				return errHandler
 			}
 			return nil
-		}}
+		}})
+	}
+	groups := cfg.Groups
+	if len(groups) == 0 {
 		if cfg.Batch {
-			if h.Generic {
-				batchGen = append(batchGen, ph)
-			} else {
-				batchSpec = append(batchSpec, ph)
-			}
-			continue
-		}
-		if h.Generic {
-			client.Events.AddGeneric(ph)
+			groups = []int{len(phs)}
 		} else {
-			client.Events.AddListener(ph)
+			for range phs {
+				groups = append(groups, 1)
+			}
 		}
 	}
-	if cfg.Batch {
-		client.Events.AddGeneric(batchGen...)
-		client.Events.AddListener(batchSpec...)
+	at := 0
+	for _, g := range groups {
+		var gen, spec []bot.PacketHandler
+		for i := at; i < at+g && i < len(phs); i++ {
+			if cfg.Handlers[i].Generic {
+				gen = append(gen, phs[i])
+			} else {
+				spec = append(spec, phs[i])
+			}
+		}
+		at += g
+		if len(gen) > 0 || (cfg.Batch && len(groups) == 1) {
+			client.Events.AddGeneric(gen...)
+		}
+		if len(spec) > 0 || (cfg.Batch && len(groups) == 1) {
+			client.Events.AddListener(spec...)
+		}
 	}
+}
+
+// joinAndPlay joins through pipe end a (the server side hS is already running on the other end),
+// runs HandleGame, sends the client->server packets and waits for both sides to finish.
+func joinAndPlay(client *bot.Client, cfg Config, a *vnet.Conn, obs *Obs, hS sched.Handle) {
+	client.Auth.Name = cfg.Name
+	client.Auth.UUID = cfg.AuthUUID
 	opts := bot.JoinOptions{MCDialer: dialer{a}, NoPublicKey: true}
 	if cfg.Queue == "chan" {
-		opts.QueueRead = queue.NewChannelQueue[pk.Packet](64)
-		opts.QueueWrite = queue.NewChannelQueue[pk.Packet](64)
+		n := 64
+		if cfg.QueueCap > 0 {
+			n = cfg.QueueCap
+		}
+		opts.QueueRead = queue.NewChannelQueue[pk.Packet](n)
+		opts.QueueWrite = queue.NewChannelQueue[pk.Packet](n)
 	}
 	err := client.JoinServerWithOptions("localhost:25565", opts)
 	obs.JoinErr = err
@@ -451,26 +536,27 @@ func judge(cfg Config, o *Obs) (class, detail string) {
 		if o.PingErr != nil {
 			return "ping/error", fmt.Sprintf("pingAndList failed: %v", o.PingErr)
 		}
-		var got struct {
-			Version struct {
-				Name     string `json:"name"`
-				Protocol int    `json:"protocol"`
-			} `json:"version"`
-			Players struct {
-				Max    int `json:"max"`
-				Online int `json:"online"`
-			} `json:"players"`
-			Description json.RawMessage `json:"description"`
+		want := o.Want
+		if want == nil {
+			want = &statusWant{Name: "verif", Protocol: 767, Max: 20, Online: 0, Motd: "verif motd"}
 		}
-		if err := json.Unmarshal(o.PingData, &got); err != nil {
-			return "ping/not-json", fmt.Sprintf("status response %q: %v", o.PingData, err)
+		return judgeStatus("ping", o.PingData, want)
+	}
+	if len(cfg.Rounds) > 0 {
+		return judgeHistory(cfg, o)
+	}
+	// whatever the server's login checker is consulted about is the server's view of the player:
+	// the name, the offline UUID, the protocol number
+	if o.ChkCalls > 0 {
+		if o.ChkName != cfg.Name {
+			return fam + "/checker-args/name", fmt.Sprintf("configured name %q, the login checker was asked about %q", cfg.Name, o.ChkName)
 		}
-		var desc chat.Message
-		_ = json.Unmarshal(got.Description, &desc)
-		if got.Version.Name != "verif" || got.Version.Protocol != 767 || got.Players.Max != 20 || got.Players.Online != 0 || desc.Text != "verif motd" {
-			return "ping/wrong-status", fmt.Sprintf("status response %s does not carry the handler's values", o.PingData)
+		if want := uuid.UUID(refjava.OfflineUUID(cfg.Name)); o.ChkID != want {
+			return fam + "/checker-args/uuid", fmt.Sprintf("offline UUID of %q is %v, the login checker was asked about %v", cfg.Name, want, o.ChkID)
 		}
-		return "", ""
+		if o.ChkProtocol != bot.ProtocolVersion {
+			return fam + "/checker-args/protocol", fmt.Sprintf("bot speaks protocol %d, the login checker was asked about %d", bot.ProtocolVersion, o.ChkProtocol)
+		}
 	}
 	admit := cfg.Checker != "refuse"
 	if !admit {
@@ -505,7 +591,7 @@ func judge(cfg Config, o *Obs) (class, detail string) {
 	}
 	want, failed := expectedCalls(cfg)
 	if len(want) != len(o.Calls) {
-		return fam + "/dispatch/call-count", fmt.Sprintf("handlers were invoked %d times, reference dispatch gives %d: got %v want %v", len(o.Calls), len(want), o.Calls, want)
+		return fam + "/dispatch/call-count", fmt.Sprintf("handlers were invoked %d times, reference dispatch gives %d: got %s want %s", len(o.Calls), len(want), brief(o.Calls), brief(want))
 	}
 	for i := range want {
 		if want[i] != o.Calls[i] {
@@ -513,7 +599,7 @@ func judge(cfg Config, o *Obs) (class, detail string) {
 			if want[i].Handler == o.Calls[i].Handler {
 				kind = "packet-content"
 			}
-			return fam + "/dispatch/" + kind, fmt.Sprintf("invocation %d: got handler %d id %#x len %d, want handler %d id %#x len %d (all: got %v want %v)", i, o.Calls[i].Handler, o.Calls[i].ID, o.Calls[i].Len, want[i].Handler, want[i].ID, want[i].Len, o.Calls, want)
+			return fam + "/dispatch/" + kind, fmt.Sprintf("invocation %d: got handler %d id %#x len %d, want handler %d id %#x len %d (all: got %s want %s)", i, o.Calls[i].Handler, o.Calls[i].ID, o.Calls[i].Len, want[i].Handler, want[i].ID, want[i].Len, brief(o.Calls), brief(want))
 		}
 	}
 	if failed {
@@ -537,6 +623,14 @@ func judge(cfg Config, o *Obs) (class, detail string) {
 		}
 	}
 	return "", ""
+}
+
+// brief prints a call list, abbreviated when it is long.
+func brief(c []Call) string {
+	if len(c) <= 16 {
+		return fmt.Sprint(c)
+	}
+	return fmt.Sprintf("%v ... %v (%d calls)", c[:8], c[len(c)-4:], len(c))
 }
 
 func errStage(err error) string {
@@ -569,7 +663,11 @@ type Case struct {
 func runOne(cfg Config, c *engine.Chooser) (class, detail string, out sched.Outcome) {
 	obs := &Obs{}
 	reset()
-	out = sched.Run(dec{c}, 20000, func() { session(cfg, obs) })
+	horizon := 20000 + 400*(len(cfg.S2C)+len(cfg.C2S))
+	if n := len(cfg.Rounds); n > 0 {
+		horizon *= n
+	}
+	out = sched.Run(dec{c}, horizon, func() { session(cfg, obs) })
 	switch out.Kind {
 	case "ok":
 	case "deadlock":
@@ -590,7 +688,30 @@ func runOne(cfg Config, c *engine.Chooser) (class, detail string, out sched.Outc
 }
 
 var thresholds = []int{-1, 0, 1, 64, 1 << 20}
-var names = []string{"Steve", "", "a", "SixteenCharsName", "Zoë→"}
+
+// names: the last two are longer than 16 bytes (16 non-ASCII characters = 32 bytes; 17 ASCII
+// characters): the statement quantifies over every player name.
+var names = []string{"Steve", "", "a", "SixteenCharsName", "Zoë→", "ÀÁÂÃÄÅÆÇÈÉÊËÌÍÎÏ", "SeventeenCharName"}
+
+const fixedUUID = "11111111-2222-3333-4444-555555555555"
+
+// extremePriorities: PacketHandler.Priority is an int; the ends of its range are what "first" and
+// "last" handlers are naturally given.
+var extremePriorities = []Prio{math.MinInt, -1, 0, 1, math.MaxInt}
+
+// historyAlphabet: the rounds a history is made of (names differing only by case, a claimed UUID).
+var historyAlphabet = []Round{
+	{Kind: "ping"},
+	{Kind: "join", Name: "Steve"},
+	{Kind: "join", Name: "Alex"},
+	{Kind: "join", Name: "steve"},
+	{Kind: "join", Name: "Steve", AuthUUID: fixedUUID},
+}
+
+// longBundles: number of packets inside the one bundle of a 200-packet sequence (0: no bundle).
+var longBundles = []int{0, 127, 128, 129, 198}
+
+const longTotal = 200
 
 func sizesFor(t int) []int {
 	if t <= 1 {
@@ -606,6 +727,26 @@ func sizesFor(t int) []int {
 func genConfig(c *engine.Chooser, family string) Config {
 	cfg := Config{Family: family, Threshold: -1, Name: "Steve", Checker: "nil", FailAt: -1, Queue: "linked"}
 	pick := func(n int) int { return c.Pick(n) }
+	// product: one choice point at tape index 5 that carries a whole small product of menus (mixed
+	// radix, first menu most significant). The sharding of the explorer splits work on the first 6
+	// choices only, and every shard executes the prefixes above; a family with few, expensive
+	// configurations therefore puts them all into one point.
+	product := func(arity ...int) []int {
+		for c.Depth() < 5 {
+			c.Pick(1)
+		}
+		n := 1
+		for _, a := range arity {
+			n *= a
+		}
+		v := c.Pick(n)
+		out := make([]int, len(arity))
+		for i := len(arity) - 1; i >= 0; i-- {
+			out[i] = v % arity[i]
+			v /= arity[i]
+		}
+		return out
+	}
 	switch family {
 	case "login":
 		cfg.Threshold = thresholds[pick(len(thresholds))]
@@ -643,7 +784,7 @@ func genConfig(c *engine.Chooser, family string) Config {
 			gen bool
 			id  int32
 		}{{true, 0}, {false, idX}, {false, idY}} {
-			for _, pr := range []int{0, 1, -1} {
+			for _, pr := range []Prio{0, 1, -1} {
 				specs = append(specs, HSpec{g.gen, g.id, pr})
 			}
 		}
@@ -660,7 +801,7 @@ func genConfig(c *engine.Chooser, family string) Config {
 		// later packets are not larger than earlier ones, so a receive buffer recycled too early
 		// is reused in place (a larger packet would get a fresh buffer and hide it)
 		p, q, r, B := Pkt{idX, 6, 1}, Pkt{idY, 5, 2}, Pkt{idX, 4, 3}, Pkt{idDelim, 0, 0}
-		layouts := [][]Pkt{{p, q}, {B, p, q, B}, {B, B, p}, {p, B, q, B, r}, {p, B, q, r}}
+		layouts := [][]Pkt{{p, q}, {B, p, q, B}, {B, B, p}, {p, B, q, B, r}, {p, B, q, r}, {B, p, B, B, q, r, B}}
 		cfg.S2C = layouts[pick(len(layouts))]
 		if family == "dispatch-sched" {
 			cfg.FailAt = []int{-1, 1}[pick(2)]
@@ -688,7 +829,7 @@ func genConfig(c *engine.Chooser, family string) Config {
 		// large handler groups with ties and several priorities (sorting algorithms change
 		// behaviour with the group size)
 		n := []int{5, 12, 13, 14, 17, 33}[pick(6)]
-		pattern := [][]int{{0}, {0, 1}, {-1, 0, 0, 1, 5}, {3, 2, 1}, {1, 2, 3}}[pick(5)]
+		pattern := [][]Prio{{0}, {0, 1}, {-1, 0, 0, 1, 5}, {3, 2, 1}, {1, 2, 3}}[pick(5)]
 		generic := pick(2) == 0
 		for i := 0; i < n; i++ {
 			cfg.Handlers = append(cfg.Handlers, HSpec{generic, idX, pattern[i%len(pattern)]})
@@ -696,6 +837,107 @@ func genConfig(c *engine.Chooser, family string) Config {
 		cfg.Batch = pick(2) == 1
 		cfg.S2C = []Pkt{{idX, 4, 1}, {idY, 3, 2}}
 		cfg.FailAt = []int{-1, n / 2}[pick(2)]
+	case "dispatch-reg":
+		// registration calls that carry several handlers (ids and kinds mixed in one call): every
+		// grouping of the handler list into consecutive calls with at least one call of two or more
+		specs := []HSpec{}
+		for _, g := range []struct {
+			gen bool
+			id  int32
+		}{{true, 0}, {false, idX}, {false, idY}} {
+			for _, pr := range []Prio{0, 1, -1} {
+				specs = append(specs, HSpec{g.gen, g.id, pr})
+			}
+		}
+		// one product point: h1, h2, h3 (or none), grouping
+		type regCase struct {
+			hs []HSpec
+			gr []int
+		}
+		var cases []regCase
+		for _, h1 := range specs {
+			for _, h2 := range specs {
+				cases = append(cases, regCase{[]HSpec{h1, h2}, []int{2}})
+				for _, h3 := range specs {
+					for _, gr := range [][]int{{3}, {2, 1}, {1, 2}} {
+						cases = append(cases, regCase{[]HSpec{h1, h2, h3}, gr})
+					}
+				}
+			}
+		}
+		rc := cases[product(len(cases))[0]]
+		cfg.Handlers, cfg.Groups = rc.hs, rc.gr
+		cfg.S2C = []Pkt{{idX, 6, 1}, {idY, 5, 2}}
+	case "dispatch-extreme":
+		// priorities at the ends of the int range (differences of two priorities overflow)
+		n := 2 + pick(2)
+		generic := pick(2) == 0
+		cfg.Batch = pick(2) == 1
+		for i := 0; i < n; i++ {
+			cfg.Handlers = append(cfg.Handlers, HSpec{generic, idX, extremePriorities[pick(len(extremePriorities))]})
+		}
+		cfg.S2C = []Pkt{{idX, 4, 1}}
+	case "dispatch-ids":
+		// every clientbound play packet id (the delimiter excepted), plain and bundled: the id's own
+		// handler, a generic handler, and a handler of a neighbouring id (which must stay silent)
+		guard := int(packetid.ClientboundPacketIDGuard)
+		ch := product(guard-1, 2)
+		id := int32(1 + ch[0])
+		other := id%int32(guard-1) + 1
+		cfg.Handlers = []HSpec{{false, id, 0}, {true, 0, 0}, {false, other, 0}}
+		cfg.S2C = []Pkt{{id, 3, int(id)}}
+		if ch[1] == 1 {
+			cfg.S2C = []Pkt{{idDelim, 0, 0}, {id, 3, int(id)}, {idDelim, 0, 0}}
+		}
+	case "history":
+		// all histories of 1..3 rounds over the alphabet, as one product point: length-3 codes in
+		// base (alphabet+1) whose "none" digits are all at the end
+		A := len(historyAlphabet) + 1
+		var codes [][]int
+		for v := 0; v < A*A*A; v++ {
+			d := []int{v / (A * A), v / A % A, v % A}
+			if d[0] == 0 || (d[1] == 0 && d[2] != 0) {
+				continue
+			}
+			codes = append(codes, d)
+		}
+		ch := product(2, len(codes))
+		cfg.Threshold = []int{-1, 64}[ch[0]]
+		for _, d := range codes[ch[1]] {
+			if d > 0 {
+				cfg.Rounds = append(cfg.Rounds, historyAlphabet[d-1])
+			}
+		}
+		cfg.S2C = []Pkt{{idX, 6, 1}, {idY, 5, 2}}
+		cfg.C2S = []Pkt{{3, 2, 5}}
+		cfg.Handlers = []HSpec{{true, 0, 0}, {false, idX, 0}}
+	case "long":
+		// the upper end of the statement's 0..200 play packets, in both directions, with one
+		// bundle of k packets; sizes cycle through the threshold classes, two packets per direction have a 3-byte length prefix
+		ch := product(2, len(longBundles), 2, 2)
+		cfg.Threshold = []int{-1, 64}[ch[0]]
+		k := longBundles[ch[1]]
+		nC2S := []int{0, longTotal}[ch[2]]
+		cfg.FailAt = []int{-1, 300}[ch[3]]
+		sz := sizesFor(cfg.Threshold)
+		size := func(i int) int {
+			if i == 5 || i == 150 {
+				return 20000 // length prefix of three bytes
+			}
+			return sz[i%len(sz)]
+		}
+		for i := 0; len(cfg.S2C) < longTotal; i++ {
+			if k > 0 && (len(cfg.S2C) == 0 || len(cfg.S2C) == k+1) {
+				cfg.S2C = append(cfg.S2C, Pkt{idDelim, 0, 0})
+				continue
+			}
+			cfg.S2C = append(cfg.S2C, Pkt{[]int32{idX, idY}[i%2], size(i), 100 + i})
+		}
+		for i := 0; i < nC2S; i++ {
+			cfg.C2S = append(cfg.C2S, Pkt{int32(3 + i%5), size(i + 2), 500 + i})
+		}
+		cfg.Handlers = []HSpec{{true, 0, 0}, {false, idX, 1}, {false, idY, 0}}
+		cfg.QueueCap = 1024
 	case "ping-concurrent":
 		cfg.Ping2 = true
 	case "ping":
@@ -716,6 +958,11 @@ var families = []struct {
 	{"traffic-sched", 1, 2},
 	{"dispatch-sched", 1, 2},
 	{"dispatch-many", 0, 0},
+	{"dispatch-reg", 0, 0},
+	{"dispatch-extreme", 0, 0},
+	{"dispatch-ids", 0, 0},
+	{"history", 0, 1},
+	{"long", 0, 0},
 	{"burst", 2, 3},
 	{"ping", 3, 4},
 	{"ping-concurrent", 2, 3},
@@ -737,6 +984,9 @@ func explore(shardIdx, shardCnt int) []famStat {
 	}
 	for _, f := range families {
 		f := f
+		if *flagFam != "" && f.name != *flagFam {
+			continue
+		}
 		b := f.bound
 		if rep.Thorough() {
 			b = f.deep
@@ -773,6 +1023,7 @@ func explore(shardIdx, shardCnt int) []famStat {
 var (
 	flagMode  = flag.String("mode", "controlled", "controlled | free")
 	flagBound = flag.Int("bound", -1, "override the deviation bound of every family")
+	flagFam   = flag.String("family", "", "explore only this family (development aid; the evidence then covers that family only)")
 )
 
 func main() {
@@ -822,6 +1073,20 @@ func main() {
 	loopbackPing()
 	racePass()
 	rep.Extra("families", stats)
+	rep.Extra("menus", map[string]any{
+		"thresholds":            thresholds,
+		"player_names":          names,
+		"player_name_bytes_max": 32,
+		"login_checker":         []string{"nil", "accept (arguments compared with name / offline UUID / protocol)", "refuse (same)"},
+		"dispatch_reg":          "2..3 handlers from {generic,idX,idY}x{0,1,-1}, every grouping into consecutive registration calls with a call of >=2 handlers (ids and kinds mixed in one AddListener/AddGeneric call)",
+		"dispatch_extreme":      map[string]any{"priorities": []string{"MinInt", "-1", "0", "1", "MaxInt"}, "handlers": "2..3 of one kind, every priority tuple, one call each or one batch call"},
+		"dispatch_ids":          fmt.Sprintf("every clientbound packet id 1..%d, plain and bundled, handlers {own id, generic, neighbouring id}", int(packetid.ClientboundPacketIDGuard)-1),
+		"bundle_layouts":        []string{"p q", "[p q]", "[] p", "p [q] r", "p [q r (never closed)", "[p] [q r] (consecutive bundles)"},
+		"history_alphabet":      historyAlphabet,
+		"history_length":        "1..3 rounds on ONE bot.Client and ONE server.Server; the status handler's name/protocol/motd/icon change every round and every join adds a player to its list",
+		"status_oracle":         "version.name, version.protocol, players.max, players.online, players.sample (as a set), description text, favicon",
+		"long_sequences":        map[string]any{"play_packets_per_direction": longTotal, "bundle_sizes": longBundles, "c2s_packets": []int{0, longTotal}, "fail_at_invocation": []int{-1, 300}, "sizes": "threshold classes cycled + 20000 (3-byte length prefix) twice per direction"},
+	})
 	rep.Extra("shards", nShards)
 	rep.AddTraces(rep.Evaluations)
 	rep.Assume("sequential consistency; scheduling points at sync/pool/pipe operations; delay-bounded thread choices; LinkedListQueue under the scheduler (ChannelQueue blocks on a real channel and is exercised only in the free-running -race pass); the configuration handler is the 'configuration finish' handler of the statement (server.Configurations' registry data is not used); status ping additionally once over loopback TCP outside the scheduler")
